@@ -53,6 +53,10 @@ struct Fixtures {
     sm4_key: [u8; 16],
     mode_cts: Vec<(String, Vec<u8>)>,
     sm9_ct: Vec<u8>,
+    /// further valid SM9 ciphertexts whose C2 length is a multiple of 32 (KDF length on a block boundary)
+    sm9_cts_aligned: Vec<Vec<u8>>,
+    /// valid SM2 ciphertexts of a 32-byte message, per (order, encoding)
+    cts32: Vec<(bool, bool, Vec<u8>)>,
     sm9_key: gm_sm9::key::Sm9EncKey,
     sm9_msk: gm_sm9::key::Sm9SignMasterKey,
     sm9_sig: Vec<u8>,
@@ -74,6 +78,13 @@ fn fx() -> &'static Fixtures {
         for o in [false, true] {
             for c in [false, true] {
                 cts.push((o, c, ct.encode(o, c)));
+            }
+        }
+        let ct32 = sm2::encrypt_with_k(&pkr, &[0x5au8; 32], &k).unwrap();
+        let mut cts32 = Vec::new();
+        for o in [false, true] {
+            for c in [false, true] {
+                cts32.push((o, c, ct32.encode(o, c)));
             }
         }
         let (cx, cy) = ct.c1.clone().unwrap();
@@ -99,6 +110,7 @@ fn fx() -> &'static Fixtures {
         let ppube = sm9::g1_mul(&ke, &pr.p1);
         let g = sm9::enc_g(&ppube);
         let ct9 = sm9::encrypt_with_r(&g, &ppube, b"Bob", b"Chinese IBE standard", &hb(crate::c10::ANNEX_R)).unwrap();
+        let sm9_cts_aligned: Vec<Vec<u8>> = [32usize, 64].iter().map(|l| sm9::encrypt_with_r(&g, &ppube, b"Bob", &vec![0x42u8; *l], &hb(crate::c10::ANNEX_R)).unwrap().encode()).collect();
         let de = sm9::extract_enc_key(&ke, b"Bob", sm9::HID_ENC).unwrap();
         let sm9_key = gm_sm9::key::Sm9EncKey { ppube: a9::lib_g1_affine(&ppube), de: a9::lib_g2_affine(&de) };
         let ks = hb(crate::c09::ANNEX_KS);
@@ -109,7 +121,7 @@ fn fx() -> &'static Fixtures {
         let mut sm9_sig = a9::cand(&h).to_vec();
         sm9_sig.extend_from_slice(&sm9::g1_bytes(&s9));
         let sm9_msk = gm_sm9::key::Sm9SignMasterKey { ks: refmodels::util::to_limbs(&ks), ppubs: a9::lib_g2_affine(&ppubs) };
-        Fixtures { d, pk, sk, sig, msg, cts, asn1, pub65: sm2::encode_point(&pkr, false), pub33: sm2::encode_point(&pkr, true), spki_der, spki_pem, pkcs8_der, pkcs8_pem, sm4_key, mode_cts, sm9_ct: ct9.encode(), sm9_key, sm9_msk, sm9_sig }
+        Fixtures { d, pk, sk, sig, msg, cts, asn1, pub65: sm2::encode_point(&pkr, false), pub33: sm2::encode_point(&pkr, true), spki_der, spki_pem, pkcs8_der, pkcs8_pem, sm4_key, mode_cts, sm9_ct: ct9.encode(), sm9_cts_aligned, cts32, sm9_key, sm9_msk, sm9_sig }
     })
 }
 
@@ -166,6 +178,12 @@ fn call(entry: &str, data: &[u8]) -> Outcome {
                     }
                     if let Ok(ct) = pk.encrypt(b"keyops", false, Sm2Model::C1C3C2) {
                         let _ = sk.decrypt(&ct, false, Sm2Model::C1C3C2);
+                    }
+                    // message lengths on the KDF block boundary, and the compressed / other-order forms
+                    for l in [1usize, 32, 64] {
+                        if let Ok(ct) = pk.encrypt(&vec![0x61u8; l], true, Sm2Model::C1C2C3) {
+                            let _ = sk.decrypt(&ct, true, Sm2Model::C1C2C3);
+                        }
                     }
                     if let (Ok(mut a), Ok(mut b)) = (gm_sm2::exchange::Exchange::new(16, None, &pk, &sk, None, &f.pk), gm_sm2::exchange::Exchange::new(16, None, &f.pk, &f.sk, None, &pk)) {
                         if let Ok(ra) = a.exchange_1() {
@@ -229,6 +247,31 @@ fn call(entry: &str, data: &[u8]) -> Outcome {
                 let _ = gm_zuc::eea::EEA::new(&[0x5au8; 16], 1, 2, 1).encrypt(&words, 200);
             } else {
                 let _ = gm_zuc::eia::EIA::new(&[0x5au8; 16], 1, 2, 1).gen_mac(&words, 200);
+            }
+            Outcome::Ok
+        }
+        "sm9.ops" => {
+            // encrypting / signing / exchanging with valid SM9 keys terminates for every message and key length
+            // (data = message; its length also serves as klen)
+            let pr = sm9::params();
+            let ke = hb(crate::c10::ANNEX_KE);
+            let ppube = sm9::g1_mul(&ke, &pr.p1);
+            let msk = gm_sm9::key::Sm9EncMasterKey { ke: refmodels::util::to_limbs(&ke), ppube: a9::lib_g1_affine(&ppube) };
+            if !data.is_empty() && data.len() <= 255 {
+                let ct = msk.encrypt(b"Bob", data);
+                let _ = f.sm9_key.decrypt(b"Bob", &ct);
+            }
+            if let Some(k) = f.sm9_msk.extract_key(b"Alice") {
+                if let Ok((h, s)) = k.sign(data) {
+                    let _ = f.sm9_msk.verify_sign(b"Alice", data, &h, &s);
+                }
+            }
+            if let (Some(ka), Some(kb)) = (msk.extract_exch_key(b"Alice"), msk.extract_exch_key(b"Bob")) {
+                let klen = data.len().max(1);
+                let (ra, ra_) = gm_sm9::key::exch_step_1a(&msk, b"Bob");
+                if let Ok((rb, _)) = gm_sm9::key::exch_step_1b(&msk, b"Alice", b"Bob", &kb, &ra, klen) {
+                    let _ = gm_sm9::key::exch_step_2a(&msk, b"Alice", b"Bob", &ka, ra_, &ra, &rb, klen);
+                }
             }
             Outcome::Ok
         }
@@ -308,7 +351,7 @@ fn cases(tier: Tier, seed: u64) -> Vec<Case> {
         ("sm4.block.encrypt".into(), vec![vec![0x33u8; 16]], 200),
         ("sm4.block.decrypt".into(), vec![vec![0x33u8; 16]], 200),
         ("sm4.mode.new".into(), vec![f.sm4_key.to_vec()], 200),
-        ("sm9.decrypt".into(), vec![f.sm9_ct.clone()], 400),
+        ("sm9.decrypt".into(), { let mut v = vec![f.sm9_ct.clone()]; v.extend(f.sm9_cts_aligned.iter().cloned()); v }, 400),
         ("sm9.mod_n_from_hash".into(), vec![vec![0xabu8; 40]], 200),
         ("zuc.new.key".into(), vec![vec![0x3du8; 16]], 40),
         ("zuc.new.iv".into(), vec![vec![0x84u8; 16]], 40),
@@ -317,13 +360,17 @@ fn cases(tier: Tier, seed: u64) -> Vec<Case> {
         ("zuc.eea.encrypt.buffer".into(), vec![vec![0x6cu8; 28]], 60),
         ("zuc.eia.gen_mac.buffer".into(), vec![vec![0x98u8; 28]], 60),
     ];
-    for (o, c, ct) in &f.cts {
-        table.push((format!("sm2.decrypt/{}/{}", if *o { "C1C3C2" } else { "C1C2C3" }, if *c { "compressed" } else { "uncompressed" }), vec![ct.clone()], 200));
+    for (i, (o, c, ct)) in f.cts.iter().enumerate() {
+        table.push((format!("sm2.decrypt/{}/{}", if *o { "C1C3C2" } else { "C1C2C3" }, if *c { "compressed" } else { "uncompressed" }), vec![ct.clone(), f.cts32[i].2.clone()], 200));
     }
     for (m, ct) in &f.mode_cts {
         table.push((format!("sm4.mode.decrypt/{}", m), vec![ct.clone()], 200));
         table.push((format!("sm4.mode.decrypt.iv/{}", m), vec![vec![0x11u8; 16]], 40));
         table.push((format!("sm4.mode.encrypt.iv/{}", m), vec![vec![0x11u8; 16]], 40));
+    }
+    // SM9 operations with valid keys over message / key lengths on and next to the KDF block boundary
+    for l in [1usize, 31, 32, 33, 64, 96, 128, 255] {
+        push(&mut v, "sm9.ops", &vec![0x61u8; l], "operations-with-valid-keys".into());
     }
     for (entry, valids, maxlen) in &table {
         let vlens: Vec<usize> = valids.iter().map(|x| x.len()).collect();
@@ -493,7 +540,7 @@ pub fn run(ctx: &Arc<Ctx>) {
     refmodels::selftest::run(&["sm3", "sm2", "sm9"]).unwrap_or_else(|e| ctx.machinery_error(format!("reference self-test failed: {}", e)));
     let cs = Arc::new(cases(ctx.tier, ctx.seed));
     let limit = Duration::from_secs(ctx.tier.pick(5, 10));
-    ctx.set_rule("entry points: SM2 verify (signature and message), raw decryption (2 orders x 2 encodings), ASN.1 decryption, public/private key decoders for bytes, hex, DER and PEM, SM4 cipher construction, block encrypt/decrypt, mode construction and mode decryption (data and IV), SM9 decryption, SM9 verification (h and S from bytes, affine / Jacobian / infinity), mod_n_from_hash, the SM2 KDF, and (the property's anchors name eea.rs / eia.rs) ZUC / EEA3 / EIA3 construction from key and IV bytes and message buffers shorter than LENGTH; per byte-string parameter every length 0..=200 (0..=400 for SM9 decryption) x {0x00, 0xFF, seeded}; for each valid encoding every truncation, every single-byte corruption (4 kinds per position) and trailing bytes; hex strings of every length 0..=140 and a non-hex character at every position; PEM truncations and corruptions; boundary private keys {0,1,n-2,n-1,n,2^256-1}: whatever the constructor accepts must sign, encrypt, decrypt and run a key agreement to completion. Each call runs in a child process under panic capture and a wall-clock watchdog. Oracle: outcome in {Ok, Err}; panic, overflow, abort and time-out are violations (whether an Ok was deserved is judged by C04/C06/C07/C19).");
+    ctx.set_rule("entry points: SM2 verify (signature and message), raw decryption (2 orders x 2 encodings), ASN.1 decryption, public/private key decoders for bytes, hex, DER and PEM, SM4 cipher construction, block encrypt/decrypt, mode construction and mode decryption (data and IV), SM9 decryption, SM9 verification (h and S from bytes, affine / Jacobian / infinity), mod_n_from_hash, the SM2 KDF, and (the property's anchors name eea.rs / eia.rs) ZUC / EEA3 / EIA3 construction from key and IV bytes and message buffers shorter than LENGTH; per byte-string parameter every length 0..=200 (0..=400 for SM9 decryption) x {0x00, 0xFF, seeded}; for each valid encoding (SM2 / SM9 ciphertexts also with a body of 32 and 64 bytes, the KDF block boundary) every truncation, every single-byte corruption (4 kinds per position) and trailing bytes; hex strings of every length 0..=140 and a non-hex character at every position; PEM truncations and corruptions; boundary private keys {0,1,n-2,n-1,n,2^256-1}: whatever the constructor accepts must sign, encrypt (also 32- and 64-byte messages), decrypt and run a key agreement to completion; SM9 encrypt / sign / exchange with valid keys over lengths {1,31,32,33,64,96,128,255}. Each call runs in a child process under panic capture and a wall-clock watchdog. Oracle: outcome in {Ok, Err}; panic, overflow, abort and time-out are violations (whether an Ok was deserved is judged by C04/C06/C07/C19).");
     ctx.note_bound(format!("{} calls, watchdog {} s per call", cs.len(), limit.as_secs()));
     ctx.sample(serde_json::to_value(&cs[10]).unwrap());
     ctx.sample(serde_json::to_value(&cs[cs.len() - 1]).unwrap());
